@@ -144,8 +144,8 @@ def obligations(repo):
                     must_have=[r"verify_structure\.postcondition", r"loop_invariant_step", r"decreases"], min_checks=20))
     for part in ["DECODE", "JMP", "MATCH", "CALL", "STR", "EXTERN", "LOCAL"]:
         obs.append(dict(id="C13.verify.function." + part.lower(), prop="C13", harness=VER, entry="h_function", annotate=VANN, tier="thorough",
-                        defines={"VERIF_IOK": "IOK_" + part},
-                        enforce="verify_function", loops=True, unwind=9, strength="U",
+                        defines={"VERIF_IOK": "IOK_" + part, "VERIF_IOKN": part},
+                        enforce="verify_function", replace=["isa_decode", "isa_get_info"], loops=True, unwind=5, strength="U",
                         functions=["verify_function"], timeout=1200, weight=20,
                         must_have=[r"verify_function\.postcondition", r"loop_invariant_step", r"decreases"],
                         min_checks=20))
